@@ -41,6 +41,9 @@ class Overlay:
         ct = open(os.path.join(self.dir, 'Cargo.toml')).read()
         if 'examples/' in ct or os.path.isdir(os.path.join(self.repo, 'examples')):
             subprocess.run(['rsync', '-a', os.path.join(self.repo, 'examples'), self.dir + '/'], check=False)
+        # a git worktree of the repository lacks the (untracked) Cargo.lock: use the repository's
+        if not os.path.isfile(os.path.join(self.dir, 'Cargo.lock')) and os.path.isfile('/repo/Cargo.lock'):
+            shutil.copy('/repo/Cargo.lock', os.path.join(self.dir, 'Cargo.lock'))
         cfgdir = os.path.join(self.dir, '.cargo')
         os.makedirs(cfgdir, exist_ok=True)
         with open(os.path.join(cfgdir, 'config.toml'), 'a') as f:
